@@ -185,6 +185,44 @@ def redeem (now : Int) (c : CodeIn) : RedeemOut :=
   | none => .error 401
   | some s => if aexp s.refresh now || aexp s.lifetime now then .error 401 else .tokens s.email s.access s.refreshTok (s.refresh - now)
 
+/-- the other three back-channel handlers, behind the same credential gates -/
+inductive BackOut where
+  | status (n : Nat)                                   -- bare status / error response
+  | refreshed (access : String) (expiresIn : Int)      -- 201 {"access_token","expires_in"}
+  | profile (email : String) (groups : List String)    -- 200 {"email","groups"} and GAP-Auth: email
+  deriving DecidableEq, Repr
+
+/-- `Refresh`: no refresh token → 400 without asking the provider; otherwise exactly what the provider returned -/
+def refreshH (refreshToken : String) (p : Except PErr (String × Int)) : BackOut × List String :=
+  if refreshToken = "" then (.status 400, [])
+  else match p with
+    | .error e => (.status (codeForPErr e), ["refresh"])
+    | .ok (tok, ttl) => (.refreshed tok ttl, ["refresh"])
+
+/-- `ValidateToken`: no token → 400 without asking; 200 iff the provider accepts the token, 401 otherwise -/
+def validateH (accessToken : String) (providerOK : Bool) : BackOut × List String :=
+  if accessToken = "" then (.status 400, [])
+  else if providerOK then (.status 200, ["validate"]) else (.status 401, ["validate"])
+
+/-- `GetProfile`: no e-mail → 400 without asking; otherwise the e-mail asked about and exactly the groups the provider
+returned for it -/
+def profileH (email : String) (membership : Except PErr (List String)) : BackOut × List String :=
+  if email = "" then (.status 400, [])
+  else match membership with
+    | .error e => (.status (codeForPErr e), ["membership"])
+    | .ok gs => (.profile email gs, ["membership"])
+
+/-- Okta's `ValidateGroupMembership`: no token → bad request without a call; nothing asked → nothing, without a call;
+otherwise the asked groups (in the order asked, once each) that the userinfo endpoint lists; a user without any group is
+an error -/
+def oktaMembership (allowed : List String) (access : String) (userinfo : Except PErr (List String)) :
+    Except PErr (List String) × List String :=
+  if access = "" then (.error .badRequest, [])
+  else if allowed = [] then (.ok [], [])
+  else match userinfo with
+    | .error e => (.error e, ["userinfo"])
+    | .ok gs => if gs = [] then (.error .other, ["userinfo"]) else (.ok (allowed.filter (gs.contains ·)), ["userinfo"])
+
 /-! ### sign-out -/
 
 inductive SignOutOut where
